@@ -86,7 +86,8 @@ def build(kind, tier, wd):
             lines.append("%s\ts\t%s\t1\t1\t.\t%s\t.\tID=%s;Parent=R;rs=%d;re=%d" % (f["seqid"], f["ft"], f["strand"], f["id"], f["start"], f["end"]))
         else:
             lines.append("%s\ts\t%s\t%d\t%d\t.\t%s\t.\tID=%s;Parent=R" % (f["seqid"], f["ft"], f["start"], f["end"], f["strand"], f["id"]))
-    lines.append("%s\ts\tleaf\t1\t1\t.\t+\t.\tID=L;Parent=%s" % (S1, ",".join(f["id"] for f in feats)))
+    # the leaf names every feature AND the root as parent: it is related to the root at level 1 and (through any feature) at level 2
+    lines.append("%s\ts\tleaf\t1\t1\t.\t+\t.\tID=L;Parent=R,%s" % (S1, ",".join(f["id"] for f in feats)))
     path = dbutil.write_text(wd, "in%s.gff" % kind, "\n".join(lines) + "\n")
 
     def move(f):
@@ -249,7 +250,10 @@ def body(ch, ctx):
     elif form == "parents":
         got = db.parents("L", limit=lim_t if strand is None else lim_s, completely_within=cw, featuretype=ft)
         exp = brute(feats, S1, s, e, cw, None, ft)
-    got = [f.id for f in got if f.id not in ("R", "L")]
+    got = [f.id for f in got]
+    ctx.check(len(got) == len(set(got)), "feature-returned-twice", dict(sig, helper_features_included=True), start=s, end=e,
+              twice=sorted({x for x in got if got.count(x) > 1})[:6])
+    got = [x for x in got if x not in ("R", "L")]
     ctx.sample(lambda: dict(db=kind, form=form, start=s, end=e, completely_within=cw, strand=strand, featuretype=ft, n_returned=len(got)))
     dup = len(got) != len(set(got))
     ctx.check(not dup, "feature-returned-twice", sig, start=s, end=e, got=sorted(got)[:10])
